@@ -547,6 +547,31 @@ def UnionNamedPositional(rng):
   return Prog([E, Edge, Z, Use]), ['Edge', 'Z', 'Use'], ['fam_union_named_positional']
 
 
+def ParamAlias(rng):
+  """P(y, y) on an injectible predicate where one position is an output of
+  the body and the other a parameter (a head variable the body leaves to the
+  caller): the parameter becomes an alias of the output."""
+  pv, q, x, y, v = Var('p'), Var('q'), Var('x'), Var('y'), Var('v')
+  E = Facts('E', RandRows(rng, 2, n=4, lo=0, hi=2))
+  T = Facts('T', [(i,) for i in range(3)])
+  G = Pred('G', [Rule([('col0', pv, ''), ('col1', q, ''),
+                       ('logica_value', Op('+', pv, q), '')],
+                      [Atom('E', [('col0', pv), ('col1', x)]),
+                       Cmp(Op('>=', q, Lit(N_(1))))])], inline=True)
+  H = Pred('H', [Rule([('col0', pv, ''), ('col1', q, ''), ('logica_value', x, '')],
+                      [Atom('E', [('col0', pv), ('col1', x)])])], inline=True)
+  A = Pred('A', [Rule([('col0', y, ''), ('col1', v, '')],
+                      [Atom('G', [('col0', y), ('col1', y), ('logica_value', v)])])])
+  B = Pred('B', [Rule([('col0', y, ''), ('col1', v, '')],
+                      [Atom('H', [('col0', y), ('col1', y), ('logica_value', v)]),
+                       Atom('E', [('col0', y), ('col1', Var('z'))])])])
+  C = Pred('C', [Rule([('col0', y, ''), ('logica_value', v, 'Sum')],
+                      [Atom('T', [('col0', y)]),
+                       Atom('H', [('col0', y), ('col1', y), ('logica_value', v)])],
+                      True)])
+  return Prog([E, T, G, H, A, B, C]), ['A', 'B', 'C'], ['fam_param_alias']
+
+
 SEM_FAMILIES = [('if_chain', IfChain), ('repeated_call', RepeatedCall),
                 ('sibling_combines', SiblingCombines),
                 ('double_negation', DoubleNegation),
@@ -557,7 +582,8 @@ SEM_FAMILIES = [('if_chain', IfChain), ('repeated_call', RepeatedCall),
                 ('repeated_inject', RepeatedInject),
                 ('multi_disj_conj', MultiDisjConj),
                 ('in_expr_repeated', InExprRepeated),
-                ('union_named_positional', UnionNamedPositional)]
+                ('union_named_positional', UnionNamedPositional),
+                ('param_alias', ParamAlias)]
 
 
 # ---- C18: ordered / limited predicates in less common places ---------------------
